@@ -32,6 +32,10 @@ CLAIMED = {
         text="Lean 4 proofs over a model of SchemaRegistry::collect/reachable: the checked closure is sound (contains the seeds, closed under the dependency relation), minimal (everything in it is a seed or TC-reachable from one) and total (fuel suffices), so the emitted set is exactly the reachable set; collect covers every direct and nested member/union/allOf/items reference. The model's dependency map, cyclic set and reachable set are compared with the real SchemaRegistry on every case; the files emitted by the current sources are parsed with syn and judged: every mentioned type defined exactly once, every emitted schema type transitively referenced by a selected operation (spec-level closure incl. map values, mappings, both parameter levels).",
         note="Trusted: Lean kernel; petgraph DFS/SCC replaced by the proved closure and compared per case; syn extraction + external-crate allow-list. Four escape routes of collect are reproduced and recorded as known findings (additionalProperties $ref, nullable wrapper, single-$ref union, path-item parameters).",
         ref="§6 C07"),
+    "C10": dict(
+        text="Lean 4 proofs: box_breaks_cycles (a by-value relation that is a sub-relation of the dependency relation and never targets a node on a dependency cycle has no cycle, for any graph), cyclic_spec/cyclic_total (the executable cycle test equals `lies on a cycle` and always terminates), boxed_refs_acyclic. SchemaRegistry's cyclic set is compared with the model on every graph; the types emitted by the current sources are parsed with syn and their by-value containment graph and Default-construction graph are judged acyclic with the proved cycle test, exhaustively over all 2-schema graphs on the 8 edge kinds (thorough) and sampled 3-6-schema graphs.",
+        note="Trusted: Lean kernel; the reading of emitted field types into value/Option/Box/Vec/map wrapper chains; better_default's expansion rule; rustc E0072 itself is not run in the quick tier; round trips of deep documents are covered by C02's arena, not here. Two Default-recursion classes (union first variant, required-member cycle) are recorded as known findings.",
+        ref="§6 C10"),
 }
 PENDING = ["C01","C02","C03","C04","C05","C06","C07","C08","C10","C11","C12","C13","C14","C15","C16","C17","C18","C19","C20"]
 
